@@ -713,6 +713,7 @@ def _c10_class(probe, hist, warm=None, cold=None):
 
 
 CORPUS_TEXTS = [
+    '"3.11a3" < python_full_version and python_version != "2.7"', '"3.7.0.post2" > python_full_version and python_version <= "3.11"', '"3.9.dev0" < python_full_version or python_version < "3.8"',
     '"lin" in sys_platform and sys_platform == "linux"', '"lin" in sys_platform or sys_platform == "win32"', '(sys_platform == "linux" or sys_platform == "linux2") and "2" in sys_platform',   # literal-on-the-left containment (fixed 0a9cbbb)
     '(sys_platform != "linux" and sys_platform != "linux2") or "lin" not in sys_platform', '"3.1" in python_version and python_version >= "3.10"',
     'implementation_version == "3.8" or implementation_version == "3.9"', 'implementation_version != "3.8" and implementation_version != "3.9"',       # version-valued but once grouped as strings (fixed e54358e)
@@ -756,6 +757,8 @@ def _group_pairs():
 
 
 CORPUS_PAIRS = [
+    ('"3.11a3" < python_full_version', 'python_version != "2.7"'), ('"3.7.0.post2" > python_full_version', 'python_version <= "3.11"'),    # reversed < / > with a pre/post-release literal (fixed 004ebf8)
+    ('"3.9.dev0" < python_full_version', 'python_full_version <= "3.9.0rc1"'),
     # two unions sharing a child, with version atoms that inflate cnf/dnf so that union() returns its raw candidate
     ('(python_version in "3.6, 3.7" and extra != "a") or extra == "b"', 'extra == "b" or (sys_platform == "darwin" and python_full_version < "3.7.2")'),
     ('(python_version in "3.6, 3.7" and os_name != "nt") or os_name == "posix"', 'os_name == "posix" or (sys_platform == "linux" and python_full_version >= "3.7.1")'),
